@@ -489,6 +489,11 @@ def obligations(tier):
     from .c09 import BoundedOb
     from . import e2e_native
     obs.append(BoundedOb(f"{PID}/bounded/native survey: reported errors of the exact block-coordinate algorithms never rise", "tensorly.decomposition:parafac+tucker+non_negative_parafac_hals", lambda: e2e_native.c06_c07(tier, "C07"), dict(orders="2-3 (4 thorough)", data="generic, non-negative, integer, exactly low-rank", budgets="2, 8"), "seed 0; slack 1e-6 (errors are square roots of differences)", pid=PID))
+    from .c09 import BoundedOb as _BOb
+    from . import e2e_native as _e2e
+    obs.append(_BOb(f"{PID}/bounded/native survey of secondary entry points: PARAFAC2 variants, TR-ALS, constrained / randomised CP, masks, sparse component, normalisation exits, CMTF, TT-matrix",
+                    "tensorly.decomposition:parafac2+tensor_ring_als+constrained_parafac+randomised_parafac+parafac+non_negative_tucker+non_negative_tucker_hals+coupled_matrix_tensor_3d_factorization+tensor_train_matrix",
+                    lambda: _e2e.extras(tier, PID), dict(entry_points=9, clauses="those of this property"), "seed 0; tolerances 1e-6 (errors), 1e-8 (structure); one shared run per process, failures filtered by property", pid=PID))
     return obs
 
 
